@@ -146,7 +146,7 @@ def _e5(n, P):
     return z3.Implies(z3.And(E.f_insub(P), P != E.c_O, n % E.L != 0), E.f_mul(n, P) != E.c_O)
 
 
-@lemma("ed_ladder_diff", 2, False, "P of order L, 0 <= 2k+1 < L  =>  (2k*P) - P is none of the 4 points of order 1,2,4 (needs: points of order 2,4 are not L-torsion)")
+@lemma("ed_ladder_diff", 2, True, "P of order L, 0 <= 2k+1 < L  =>  (2k*P) - P has no zero coordinate (Lean: zero_coord_order_four + ladder_diff_abstract)")
 def _e6(k, P):
     E = _ed()
     h = E.f_mul(k, P)
@@ -227,3 +227,12 @@ def _e16(b, x, y):
     from . import spec_sym as S
     E = _ed()
     return z3.Implies(S.f_ed_decodable(b), z3.And(E.f_oncurve(x, y), E.f_aff(x, y) == S.f_ed_dec(b)))
+
+
+@lemma("ed_xrecover_complete", 2, True,
+       "x-recovery is complete: if a curve point P has y-coordinate y then (xrecover(y), y) is on the curve and xrecover(y) = +-x(P)  "
+       "[Lean: xrecover_complete, xrecover_sq on the generated mirror of the real xrecover]")
+def _e17(y, P):
+    E = _ed()
+    xr = E.f_xrec(y)
+    return z3.Implies(z3.And(E.f_y(P) == y), z3.And(E.f_oncurve(xr, y), z3.Or(xr == E.f_x(P), xr == (E.Q - E.f_x(P)) % E.Q)))
